@@ -366,8 +366,13 @@ def kind_of_generic(p: bytes, caps: int) -> str:
     return "DATA"
 
 
-def parse_err(p: bytes) -> Tuple[int, bytes, bytes]:
-    if len(p) < 9 or p[0] != 0xFF or p[3:4] != b"#":
+def parse_err(p: bytes, proto41: bool = True) -> Tuple[int, bytes, bytes]:
+    """ERR packet. `proto41=False`: the pre-handshake form without SQL state (capabilities unknown)."""
+    if len(p) < 3 or p[0] != 0xFF:
+        raise Bad("malformed ERR %r" % p[:12])
+    if not proto41:
+        return struct.unpack_from("<H", p, 1)[0], b"", p[3:]
+    if len(p) < 9 or p[3:4] != b"#":
         raise Bad("malformed ERR %r" % p[:12])
     return struct.unpack_from("<H", p, 1)[0], p[4:9], p[9:]
 
